@@ -32,6 +32,7 @@ var c18plain = [][2]string{
 	{"/verif", "$V"},
 	{"/vault/customer-x/", "$X/"},
 	{"corp.example.com/secret-team", "$T"}, // a directory that is not an absolute path (module-relative names of -trimpath builds)
+	{"/srv/ci/app$nightly/w", "~work-tree-of-the-nightly-build"}, // a '$' in the directory name; a short form that is longer than the directory
 }
 
 var c18regexps = [][2]string{
